@@ -205,6 +205,31 @@ def apply(op, s: State, v: Verdict):
             return None
         acl.reverse()
         s.flat.reverse()
+    elif name == "append_remove":
+        # a new object with the text of an existing entry is appended, then removed BY VALUE: list.remove() takes the
+        # first top-level item that equals it - an entry, never a block that merely renders the same single line
+        if n < 1:
+            return None
+        it = s.flat[op[1] % n]
+        if it["t"] == "rem" and it["text"].startswith(s.prefix):
+            return None
+        item = {"t": it["t"], **({"rec": dict(it["rec"])} if it["t"] == "ace" else {"text": it["text"], "seq": it.get("seq", 0)})}
+        obj = lib_item(item, s)
+        acl.append(obj)
+        tops = list(acl.items)
+        first = next(k for k, o in enumerate(tops) if type(o) is type(obj) and o.line == obj.line)
+        acl.remove(obj)
+        if len(acl.items) != len(tops) - 1 or any(a is not b for a, b in zip(acl.items, tops[:first] + tops[first + 1:])):
+            v.fail("op:remove-by-value:took-another-item", {"removed_text": obj.line, "before": [o.line for o in tops],
+                                                           "after": [o.line for o in acl.items]})
+            return name
+        if first != len(tops) - 1:
+            # the earlier equal entry went, the new object stays at the end (only possible among plain top-level items)
+            flat_first = 0
+            for k, o in enumerate(tops[:first]):
+                flat_first += len(list(A.flat_items([o])))
+            s.flat.pop(flat_first)
+            s.flat.append(item)
     elif name == "twin":
         # a copy of one entry that differs in the destination port only, placed next to it
         if s.group_by or n < 1 or any(type(o).__name__ == "AceGroup" for o in acl.items):
@@ -440,7 +465,9 @@ def op_st(draw, platform):
     name = draw(st.sampled_from(["platform", "platform", "port_nr", "protocol_nr", "resequence", "group", "ungroup",
                                  "shuffle_sort", "reverse", "insert", "append", "pop", "remove", "copy", "export_import",
                                  "reparse", "delete_shadow", "delete_shadow", "ungroup_ports", "indent", "fill_in_place",
-                                 "twin", "sort_twice"]))
+                                 "twin", "sort_twice", "append_remove"]))
+    if name == "append_remove":
+        return [name, draw(st.integers(0, 12))]
     if name == "twin":
         return [name, draw(st.integers(0, 12)), draw(st.sampled_from([80, 443, 22, 9, 10, 99, 100, 1812, 123, 8080, 65535, 1]))]
     if name == "platform":
